@@ -165,7 +165,13 @@ func convertBag(bag *safeBag, password []byte) (*pem.Block, error) {
 		case *rsa.PrivateKey:
 			block.Bytes = x509.MarshalPKCS1PrivateKey(key)
 		case *ecdsa.PrivateKey:
-			block.Bytes, err = x509.MarshalECPrivateKey(key)
+			if key.Curve == sm2.P256Sm2() {
+				// the standard library does not know the SM2 curve: emit the SM2 PKCS#8 form
+				sm2Key := &sm2.PrivateKey{PublicKey: sm2.PublicKey{Curve: key.Curve, X: key.X, Y: key.Y}, D: key.D}
+				block.Bytes, err = x.MarshalSm2UnecryptedPrivateKey(sm2Key)
+			} else {
+				block.Bytes, err = x509.MarshalECPrivateKey(key)
+			}
 			if err != nil {
 				return nil, err
 			}
